@@ -66,7 +66,9 @@ GenNext ==
      \/ \E i \in Ap : CallEnqueue(i) /\ Int("CallEnqueue")
      \/ \E i \in Ap : CallUnlock(i) /\ Int("CallUnlock")
      \/ EnvMay /\ NewStreamOK /\ Log([a |-> "nsOK"])
-     \/ EnvMay /\ NewStreamFail /\ Log([a |-> "nsFail"])
+     \/ \E k \in Kinds : EnvMay /\ NewStreamFail(k) /\ Log([a |-> "nsFail", code |-> k])
+     \/ NewStreamUnreachable /\ Int("NewStreamUnreachable")
+     \/ EnvMay /\ ServerUp /\ Log([a |-> "serverUp"])
      \/ Backoff /\ Int("Backoff")
      \/ ResubLock /\ Int("ResubLock")
      \/ ResubSnap /\ Int("ResubSnap")
@@ -80,7 +82,7 @@ GenNext ==
      \/ EnvMay /\ SenderSend /\ Log([a |-> "send", what |-> "batch", S |-> batchS, U |-> batchU, res |-> SendRes])
      \/ WaitRecv /\ Int("WaitRecv")
      \/ RecvFail /\ Int("RecvFail")
-     \/ EnvMay /\ StreamFail /\ Log([a |-> "fail"])
+     \/ \E k \in Kinds : EnvMay /\ StreamFail(k) /\ Log([a |-> "fail", code |-> k])
      \/ EnvMay /\ SilentFail /\ Log([a |-> "silent"])
      \/ EnvMay /\ KeepaliveDetect /\ Log([a |-> "detect"])
   /\ UNCHANGED finished
